@@ -225,6 +225,58 @@ class RawGen:
         for h in rng.sample(fs + fs2 + arrs2, rng.randrange(len(fs + fs2 + arrs2))):
             self.drop(h)
 
+    def ptr_to(self, t):
+        return self.add(2, 0, [t], True, extra=True)
+
+    def zero_size_burst(self):
+        """array types whose ITEM type has size 0 (T[0] of a primitive / of an array / of an empty struct, a
+        struct or union completed with no fields and total size 0, arrays of those, int[n][0]) built with several
+        different lengths that are alive at the same time, re-built in another order (must be the same objects),
+        dropped (optionally gc.collect()) and re-built in the opposite order; then zero-length arrays of each of
+        them (T[n][0] next to T[0][n]), pointers to them and function types taking them (arguments decay)"""
+        rng = self.rng
+        flavour = rng.choice(["arr0", "arr0", "empty", "arr_of_empty", "arr0_of_arr", "nested", "empty_arr0"])
+        prim = self.add(0, rng.choice(self.prims), [], True)
+        pp = self.ptr_to(prim)
+
+        def empty_agg():
+            a = self.add(5, rng.randrange(2), [], False)
+            self.completed.add(a)
+            self.agg_fields[self.info[a]["desc"][1]] = []
+            self.info[a]["sized"] = True
+            self.ops.append(["complete", a, []])          # the worker completes it with total size 0
+            return a
+        if flavour == "arr0":
+            item = self.add(3, 0, [pp], True)                                   # prim[0]
+        elif flavour == "empty":
+            item = empty_agg()                                                  # struct {} of size 0
+        elif flavour == "arr_of_empty":
+            item = self.add(3, rng.choice([0, 2, 4]), [self.ptr_to(empty_agg())], True)
+        elif flavour == "empty_arr0":
+            item = self.add(3, 0, [self.ptr_to(empty_agg())], True)
+        elif flavour == "arr0_of_arr":
+            item = self.add(3, 0, [self.ptr_to(self.add(3, 5, [pp], True))], True)   # prim[0][5]
+        else:
+            item = self.add(3, rng.choice([3, 4]), [self.ptr_to(self.add(3, 0, [pp], True))], True)   # prim[4][0]
+        pitem = self.ptr_to(item)
+        lens = rng.sample([-1, 0, 1, 2, 3, 5, 7, 9], rng.choice([3, 4, 5]))
+        arrs = [self.add(3, n, [pitem], n >= 0) for n in lens]
+        for n in rng.sample(lens, 2):
+            self.add(3, n, [pitem], n >= 0)
+        sized = [a for a in arrs if self.info[a]["sized"]]
+        # T[n][0] over every live T[n], next to the item's own [0] array; pointers and decaying arguments
+        zs = [self.add(3, 0, [self.ptr_to(a)], True) for a in rng.sample(sized, min(2, len(sized)))]
+        fs = [self.add(4, 0, [prim, a], True) for a in rng.sample(arrs, 2)]
+        for a in rng.sample(arrs, rng.randrange(1, len(arrs) + 1)):
+            self.drop(a)
+        if rng.random() < 0.5:
+            self.ops.append(["collect"])
+        again = [self.add(3, n, [pitem], n >= 0) for n in reversed(lens)]
+        more = [self.add(3, n, [pitem], n >= 0) for n in rng.sample([0, 1, 2, 3, 4, 5, 6, 7, 8, 9, 11], 3)]
+        every = [h for h in arrs + zs + fs + again + more if h in self.info]
+        for h in rng.sample(every, rng.randrange(len(every) + 1)):
+            self.drop(h)
+
     def drop_rebuild(self):
         """drop the LAST reference to a type (no other live handle has or contains its description) while
         a weakref callback rebuilds it"""
@@ -271,10 +323,13 @@ class RawGen:
 
 def gen_raw(rng, size):
     g = RawGen(rng)
-    for _ in range(size):
+    zero_at = rng.randrange(size) if size >= 100 else -1     # every history of 100+ operations has a zero-size burst
+    for step in range(size):
         k = rng.random()
         nlive = len(g.info)
-        if k < 0.40:
+        if step == zero_at:
+            g.zero_size_burst()
+        elif k < 0.40:
             g.new_any()
         elif k < 0.60:
             g.rebuild()
@@ -288,6 +343,8 @@ def gen_raw(rng, size):
             g.drop_rebuild()
         elif k < 0.975:
             g.array_arg_burst()
+        elif k < 0.985:
+            g.zero_size_burst()
         else:
             # drop a whole family: everything, or all but a few, then rebuild from scratch
             live = g.live()
@@ -305,21 +362,29 @@ TYPE_STRINGS = ["int", "int *", "int **", "char *", "char **", "int[3]", "int[]"
                 "void(*)(void)", "union u *", "struct s *(*)(struct s *)", "long double *", "enum e *",
                 "int(*)(int, ...)", "int(*)(int)", "unsigned int", "unsigned int *", "char[4]", "struct s[2]",
                 "short", "short *", "double(*)(double, double)", "struct s", "union u", "enum e"]
+# array types whose item type has size 0, with several lengths each; zero-length arrays of sized arrays
+ZERO_STRINGS = ["int[0]", "int[7][0]", "int[9][0]", "int[3][0]", "int[][0]", "int[0][7]", "int[0][9]", "int(*)[0]",
+                "int(*)[5][0]", "int(*)[7][0]", "char[0]", "char[5][0]", "char[4][0]", "short[2][3][0]",
+                "short[4][3][0]", "short[2][0][3]", "short[4][0][3]", "struct s[0]", "struct s[2][0]", "struct s[3][0]",
+                "int *[0]", "int *[2][0]", "int *[6][0]", "struct empty[2]", "struct empty[4]", "struct empty[2][0]",
+                "struct empty[4][0]", "void(*)(int[7][0], int[9][0])", "void(*)(int[2][0], int[4][0])"]
 
 
 def gen_ffi(rng, size):
-    ops = [["ffi", 0, False], ["ffi", 1, False], ["ffi", 2, True]]
-    ffis = {0, 1, 2}
+    ops = [["ffi", 0, False], ["ffi", 1, False], ["ffi", 2, True], ["ffi", 3, 2]]
+    ffis = {0, 1, 2, 3}
     handles = []
     nh = 1
     for step in range(size):
         k = rng.random()
         if k < 0.45 and ffis:
-            ops.append(["typeof", nh, rng.choice(sorted(ffis)), rng.choice(TYPE_STRINGS)])
+            ops.append(["typeof", nh, rng.choice(sorted(ffis)),
+                        rng.choice(ZERO_STRINGS if rng.random() < 0.4 else TYPE_STRINGS)])
             handles.append(nh)
             nh += 1
         elif k < 0.60 and handles and ffis:
-            ops.append(["derive", nh, rng.choice(sorted(ffis)), rng.choice(handles), rng.choice(["ptr", "arr", "item"])])
+            ops.append(["derive", nh, rng.choice(sorted(ffis)), rng.choice(handles),
+                        rng.choice(["ptr", "arr", "item", "arr0", "arr5", "arr7", "arr"])])
             handles.append(nh)
             nh += 1
         elif k < 0.80 and handles:
@@ -331,9 +396,9 @@ def gen_ffi(rng, size):
             ffis.discard(f)
             ops.append(["dropffi", f])
         elif k < 0.92:
-            f = rng.randrange(4)
+            f = rng.randrange(5)
             ffis.add(f)
-            ops.append(["ffi", f, rng.random() < 0.3])
+            ops.append(["ffi", f, rng.choice([False, False, False, True, 2])])    # 2: a bare _cffi_backend.FFI()
         else:
             ops.append(["collect"])
         if step % 12 == 11:
@@ -493,7 +558,7 @@ def ddmin(ops, fails, max_rounds=30):
 
 
 def shrink(ctx, case, kind):
-    npre = 6 if case["level"] == "raw" else 3      # fixed prefix: permanent types / the initial FFI objects
+    npre = 6 if case["level"] == "raw" else 4      # fixed prefix: permanent types / the initial FFI objects
     pre = case["ops"][:npre]
     fix = (lambda ops: pre + consistent(pre + ops)[npre:]) if case["level"] == "raw" else (lambda ops: pre + ops)
 
@@ -507,7 +572,7 @@ def shrink(ctx, case, kind):
         if kind == "predicate":
             if c["level"] == "raw":
                 return bool(predicate_raw(c, out))
-            return any(o[0] == "check" and o[1] for o in out["outs"])
+            return any(o[0] in ("check", "wrong") and o[1] for o in out["outs"])
         bad, _, err = model_check([(c, out)])
         return bool(bad)
     return dict(level=case["level"], ops=fix(ddmin(list(case["ops"][npre:]), fails)))
@@ -579,8 +644,17 @@ def evaluate(ctx, cases):
                         ctx.violation(small, "%s (checkpoint at operation %d; history %s)" % (
                             o[1][0], i, json.dumps(small["ops"])[:1500]))
                         break
+                elif o[0] == "wrong":
+                    small = shrink(ctx, case, "predicate") if not ctx.replay_mode and len(ctx.violations) < 2 else case
+                    out2, _ = run_one(ctx, small)
+                    w = next((x for x in (out2 or out)["outs"] if x[0] == "wrong"), o)
+                    ctx.violation(small, "%s ; history %s" % (w[1], json.dumps(small["ops"])[:1500]))
+                    break
                 elif o[0] == "err":
                     ctx.hist("ffi_errors", o[1])
+                elif o[0] == "ok" and len(o) > 1:
+                    ctx.hist("ffi_zero_size_item_arrays", o[1])
+                    ctx.nontrivial(("ffi0", len(done), i))
     bad, outs, err = model_check(done)
     if err:
         ctx.obligation_broken("C27 model evaluation", err)
